@@ -57,6 +57,9 @@ pub struct Plan {
     pub schedule: Option<Vec<u8>>,
     /// twin pairs (a, b): identical scenario except for the memo hash key
     pub twins: Vec<(usize, usize)>,
+    /// clock-jump faults: at global scheduler step `s` every clock of the process jumps forward by
+    /// `ns` (only effective under the LD_PRELOAD clock shim)
+    pub clock_jumps: Vec<(u64, i64)>,
 }
 
 impl Plan {
@@ -68,6 +71,7 @@ impl Plan {
             "sched_seed": self.sched_seed.to_string(),
             "schedule_hex": self.schedule.as_ref().map(|s| desc::hex(s)),
             "twins": self.twins.iter().map(|(a, b)| vec![*a, *b]).collect::<Vec<_>>(),
+            "clock_jumps": self.clock_jumps.iter().map(|(s, ns)| json!({"at_step": s, "ns": ns.to_string()})).collect::<Vec<_>>(),
         })
     }
     pub fn from_json(v: &Value) -> Option<Plan> {
@@ -92,6 +96,10 @@ impl Plan {
                     Some((a.first()?.as_u64()? as usize, a.get(1)?.as_u64()? as usize))
                 })
                 .collect(),
+            clock_jumps: v["clock_jumps"]
+                .as_array()
+                .map(|a| a.iter().filter_map(|j| Some((j["at_step"].as_u64()?, j["ns"].as_str()?.parse::<i64>().ok()?))).collect())
+                .unwrap_or_default(),
         })
     }
 }
@@ -111,6 +119,8 @@ struct Sched {
     /// per task: (step at start, step at end)
     spans: Vec<(u64, u64)>,
     diverged: bool,
+    jumps: Vec<(u64, i64)>,
+    jumps_fired: u64,
 }
 
 const NOBODY: usize = usize::MAX;
@@ -119,6 +129,12 @@ impl Sched {
     /// called by the baton holder `me` at a yield (or when it has finished): who runs next?
     fn decide(&mut self, me: usize, finished: bool) -> usize {
         self.step += 1;
+        for (at, ns) in &self.jumps {
+            if *at == self.step {
+                crate::clock::advance(*ns);
+                self.jumps_fired += 1;
+            }
+        }
         if finished {
             self.alive[me] = false;
         }
@@ -208,6 +224,7 @@ pub struct SimResult {
     pub steps: u64,
     pub spans: Vec<(u64, u64)>,
     pub diverged: bool,
+    pub clock_jumps_fired: u64,
 }
 
 fn task_outputs(sc: &Scenario) -> Vec<Option<Vec<u8>>> {
@@ -240,6 +257,8 @@ pub fn run_plan(plan: &Plan) -> SimResult {
             change_points,
             spans: vec![(0, 0); plan.tasks.len()],
             diverged: false,
+            jumps: plan.clock_jumps.clone(),
+            jumps_fired: 0,
         }),
         handles: Mutex::new(vec![None; w]),
     });
@@ -337,6 +356,7 @@ pub fn run_plan(plan: &Plan) -> SimResult {
         steps: g.step,
         spans: g.spans.clone(),
         diverged: g.diverged,
+        clock_jumps_fired: g.jumps_fired,
     }
 }
 
@@ -413,7 +433,16 @@ pub fn draw_plan(seed: u64, index: u64) -> Plan {
         7..=8 => Policy::Pct,
         _ => Policy::Sequential,
     };
-    Plan { tasks, placement, policy, sched_seed: rng.random(), schedule: None, twins }
+    // one plan in three carries clock-jump faults (1 s .. 1 h) at random scheduler steps
+    let mut clock_jumps = vec![];
+    if rng.random_range(0..3) == 0 {
+        for _ in 0..rng.random_range(1..=3) {
+            let at = rng.random_range(1..if long_plan { 20_000u64 } else { 2_500 });
+            let ns = [1_000_000_000i64, 5_000_000_000, 60_000_000_000, 3_600_000_000_000][rng.random_range(0..4)];
+            clock_jumps.push((at, ns));
+        }
+    }
+    Plan { tasks, placement, policy, sched_seed: rng.random(), schedule: None, twins, clock_jumps }
 }
 
 pub struct PlanVerdict {
@@ -447,8 +476,18 @@ pub fn judge(plan: &Plan, stats: &mut Stats) -> PlanVerdict {
         if sim.outputs[t] != r && violation.is_none() {
             // which dimension? alone with its own hash key on a fresh thread:
             let alone = reference(&plan.tasks[t], plan.tasks[t].hash_key);
+            let without_jumps = if plan.clock_jumps.is_empty() {
+                None
+            } else {
+                let mut q = plan.clone();
+                q.clock_jumps.clear();
+                q.schedule = Some(sim.schedule.clone());
+                Some(run_plan(&q).outputs[t] == r)
+            };
             let dim = if alone != r {
                 "hash-key"
+            } else if without_jumps == Some(true) {
+                "clock"
             } else {
                 // without preemption?
                 let mut seq = plan.clone();
@@ -479,6 +518,7 @@ pub fn judge(plan: &Plan, stats: &mut Stats) -> PlanVerdict {
         }
     }
     stats.add("fault.switch.baton_handoffs", sim.switches);
+    stats.add("fault.clock.jumps_fired", sim.clock_jumps_fired);
     stats.add("fault.rekey.twin_tasks_executed", plan.twins.len() as u64);
     stats.add("fault.colocate.workers_with_2plus_tasks", colocated);
     stats.add("probe.twins_overlapped_in_time", overlapped);
